@@ -107,6 +107,8 @@ def body(c):
         lo = 1e-4 if c['variant'] == 'hocur' else 1e-7
         assume(sv[0] > 0 and not np.any((sv > 1e-13 * sv[0]) & (sv < lo * sv[0])))
     assume(np.linalg.matrix_rank(Psi, tol=1e-8 * np.linalg.norm(Psi, 2)) >= 2)
+    if c['variant'] == 'hocur':
+        assume(float(np.min(np.abs(Psi))) > 1e-9 * float(np.max(np.abs(Psi))))     # see C15: sampled crosses must not be numerically zero
     refs = []
     for xi, yi, _ in c['pairs']:
         r = reference(Psi, xi, yi)
